@@ -244,6 +244,8 @@ def run(P: Program, R: Report, tier: str) -> None:
     source_id_truthiness(P, R, "R12.7")
     # ---- R12.8 a structural validator can be skipped only for a reason about its own input
     validators_unavoidable(P, R, "R12.8")
+    # ---- R12.9 the builder's header is read before build()
+    builder_protocol(P, R, "R12.9")
 
 
 def source_id_truthiness(P: Program, R: Report, rule: str) -> None:
@@ -384,3 +386,43 @@ def validators_unavoidable(P: Program, R: Report, rule: str) -> None:
                 f"a normal return avoids the structural validator {call_name(call)}({', '.join(norm(a) for a in call.args)}): {'; '.join(reasons)} - "
                 "a malformed source (e.g. duplicate ids) is then imported instead of rejected", via="cfg-must-pass")
     R.floor(rule, "structural validator calls", n, 4)
+
+
+def builder_protocol(P: Program, R: Report, rule: str) -> None:
+    """A builder validates a name map against the columns / properties it has SEEN: `build()` on a builder whose header
+    was never read has nothing to compare the map with (the 'maps to non-existent properties' check is guarded by
+    `if importable_node_props:`), so a table that lacks a mapped column is imported partially instead of refused.
+    Typestate: every path from the creation of a *TracksBuilder to its build() passes read_header() or prepare()."""
+    n = 0
+    tb = P.class_named("TracksBuilder")
+    prep = tb.methods.get("prepare") if tb else None
+    prep_reads = prep is not None and any(isinstance(c, ast.Call) and call_name(c) == "read_header" for c in ast.walk(prep.node))
+    for fn in P.functions.values():
+        if fn.parent is not None or ".import_export." not in fn.qname:
+            continue
+        builders = {t.id for s_ in ast.walk(fn.node) if isinstance(s_, ast.Assign) and isinstance(s_.value, ast.Call) and (call_name(s_.value) or "").endswith("TracksBuilder")
+                    for t in s_.targets if isinstance(t, ast.Name)}
+        if not builders:
+            continue
+        cfg = build_cfg(fn.node)
+        entry = next(x.id for x in cfg.nodes.values() if x.kind == "entry")
+        for b in builders:
+            barrier, builds = set(), []
+            for node in cfg.stmts():
+                from ..cfg import header_expr
+
+                h = header_expr(node.ast)
+                if h is None:
+                    continue
+                for c in ast.walk(h):
+                    if isinstance(c, ast.Call) and isinstance(c.func, ast.Attribute) and norm(c.func.value) == b:
+                        if c.func.attr == "read_header" or (c.func.attr == "prepare" and prep_reads):
+                            barrier.add(node.id)
+                        if c.func.attr == "build":
+                            builds.append((node.id, c))
+            for nid, c in builds:
+                n += 1
+                R.check(not cfg.reachable(entry, nid, avoiding=barrier), rule, fn, c, f"{fn.short}: `{b}.build()` is reached only after the source's header was read",
+                        f"a path reaches `{norm(c)[:50]}` without `{b}.read_header()` / `{b}.prepare()`: the name map is then not checked against the "
+                        "columns that exist, and a source lacking a mapped column is imported instead of rejected", via="cfg-must-pass")
+    R.floor(rule, "builder.build() call sites in import entry points", n, 2)
